@@ -118,7 +118,16 @@ func isConnWriteCall(cc *ssa.CallCommon) bool {
 	}
 	// the connection handed, as a writer, to code outside the repository (net.Buffers.WriteTo,
 	// an encoder, a bufio.Writer, ...): whatever that code emits reaches the client
-	if callee := staticCallee(cc); !cc.IsInvoke() && (callee == nil || !inRepo(callee)) && !nameIn(n, "crypto/tls.Server", "crypto/tls.Client") {
+	// (a call through a function value — a handler passed as a parameter — has no static callee:
+	// its targets are closures of the repository, analysed where they are defined)
+	_, viaValue := cc.Value.(*ssa.Parameter)
+	if _, fv := cc.Value.(*ssa.FreeVar); fv {
+		viaValue = true
+	}
+	if _, ld := cc.Value.(*ssa.UnOp); ld {
+		viaValue = true
+	}
+	if callee := staticCallee(cc); !cc.IsInvoke() && !viaValue && (callee == nil || !inRepo(callee)) && !nameIn(n, "crypto/tls.Server", "crypto/tls.Client") {
 		sig, _ := cc.Value.Type().Underlying().(*types.Signature)
 		if sig != nil {
 			off := 0
